@@ -60,7 +60,7 @@ class ExprMixin:
         if k == 'sized': return v.z > 0
         if k == 'any': return z3.Function('any_truthy', AnyS, z3.BoolSort())(v.z)
         if k == 'list':
-            st.assume(st.llen(v.z) >= 0)        # a length is never negative, in any heap
+            self.assume_heap_typing(st, st.llen(v.z) >= 0)        # a length is never negative, in any heap
             return st.llen(v.z) > 0
         if k == 'text': return self.text_len(v.z) > 0
         if k == 'opt':
@@ -84,8 +84,16 @@ class ExprMixin:
     def card(self, v, st):
         from .state import key_card
         c = z3.Select(st.H(key_card()), v.z)
-        st.assume(c >= 0)          # a size is never negative, in any heap
+        self.assume_heap_typing(st, c >= 0)          # a size is never negative, in any heap
         return c
+
+    def assume_heap_typing(self, st, fact):
+        """a fact every heap satisfies (lengths and sizes are non-negative): assumed, and marked so that under a quantifier it becomes an
+        assumption of its own instead of a guard that would have to be re-proved before the quantified fact can be used"""
+        st.assume(fact)
+        if not hasattr(self, '_typing_ids'):
+            self._typing_ids = set()
+        self._typing_ids.add(fact.get_id())
 
     def text_len(self, z):
         return z3.Function('tlen', TextS, I)(z)
